@@ -93,6 +93,8 @@ pub fn gen_run(rng: &mut Rng, max_scen: usize, allow_serial: bool) -> GenRun {
         cli_conc: rng.chance(1, 4).then(|| rng.range(1, 3)),
         fifo_bias: *rng.pick(&[0usize, 0, 4, 8]),
         eager: rng.chance(1, 3),
+        // a third of the runs go through the `Cucumber` builder (its `before` / `after` / `steps` … and `run`)
+        via_cucumber: rng.chance(1, 3),
         ..RunCfg::default()
     };
     GenRun { feats, cfg, scripts, info }
